@@ -271,7 +271,7 @@ def run_check(engine_name, prop, tier, seed):
         prop, tier, seed, engine_name, n_runs, WORKERS, common.sqlglot_root()))
     sys.stdout.flush()
 
-    rdir = os.path.join(common.VERIF_DIR, "replays")
+    rdir = os.environ.get("VERIF_REPLAY_DIR") or os.path.join(common.VERIF_DIR, "replays")
     os.makedirs(rdir, exist_ok=True)
     for fn in sorted(os.listdir(rdir)):
         if fn.startswith(prop + "-") and not os.environ.get("VERIF_KEEP_REPLAYS"):
@@ -340,7 +340,6 @@ def run_check(engine_name, prop, tier, seed):
                 harness_errors.append("cannot submit shrink job: %r" % (e,))
                 break
         unshrunk = order[max_shrunk:]
-        os.makedirs(os.path.join(common.VERIF_DIR, "replays"), exist_ok=True)
         seen_sigs = set()
         for s, fut in jobs:
             try:
@@ -352,7 +351,7 @@ def run_check(engine_name, prop, tier, seed):
             if sig in seen_sigs:
                 continue
             seen_sigs.add(sig)
-            path = os.path.join(common.VERIF_DIR, "replays", "%s-%d.json" % (prop, s["run_seed"]))
+            path = os.path.join(rdir, "%s-%d.json" % (prop, s["run_seed"]))
             doc = {
                 "property": prop, "engine": engine_name, "tier": tier, "verif_seed": seed, "run_index": s["i"],
                 "run_seed": s["run_seed"], "signature": sig, "violation": oc.get("violation"),
@@ -381,7 +380,7 @@ def run_check(engine_name, prop, tier, seed):
 
         # Runs beyond the shrink cap: never silently dropped. A few are written out un-minimised; the count is printed.
         for s in unshrunk[:3]:
-            path = os.path.join(common.VERIF_DIR, "replays", "%s-%d-unshrunk.json" % (prop, s["run_seed"]))
+            path = os.path.join(rdir, "%s-%d-unshrunk.json" % (prop, s["run_seed"]))
             with open(path, "w") as fh:
                 json.dump({"property": prop, "engine": engine_name, "tier": tier, "run_seed": s["run_seed"],
                            "violation": s["violation"], "record": s["record"]}, fh, indent=1, default=repr)
@@ -451,8 +450,9 @@ def run_check(engine_name, prop, tier, seed):
         "property_id": prop, "tier": tier, "seed": seed, "level": "exploration", "coverage": coverage,
         "assumptions": eng.ASSUMPTIONS, "wall_s": round(wall, 2), "violations": len(reported),
     }
-    os.makedirs(os.path.join(common.VERIF_DIR, "evidence"), exist_ok=True)
-    with open(os.path.join(common.VERIF_DIR, "evidence", "%s.json" % prop), "w") as fh:
+    evdir = os.environ.get("VERIF_EVIDENCE_DIR") or os.path.join(common.VERIF_DIR, "evidence")
+    os.makedirs(evdir, exist_ok=True)
+    with open(os.path.join(evdir, "%s.json" % prop), "w") as fh:
         json.dump(ev, fh, indent=1, sort_keys=True, default=repr)
 
     for k in sorted(known_hits.values()):
